@@ -318,7 +318,7 @@ pub trait Val: Sized + Clone + PatchField + Send + Sync + 'static {
     }
     /// for enums: call the generated `fn variant(self) -> bool` accessors (tracked reads of the
     /// enum field); returns whether they agree with the value
-    fn variant_read<S: FldBase<Self>>(_s: &S) -> Option<bool> {
+    fn variant_read<S: FldBase<Self>>(_s: &S, _which: i64) -> Option<bool> {
         None
     }
 }
@@ -475,17 +475,20 @@ impl Val for Choice {
             _ => None,
         }
     }
-    fn variant_read<S: FldBase<Self>>(s: &S) -> Option<bool> {
-        let (a, b, c) = (s.clone().a(), s.clone().b(), s.clone().c());
+    /// which: 0 `a()` (unit variant), 1 `b()` (tuple variant), 2 `c()` (struct variant): one
+    /// accessor only, so that the reader's subscription is that accessor's doing
+    fn variant_read<S: FldBase<Self>>(s: &S, which: i64) -> Option<bool> {
+        let is = match which {
+            0 => s.clone().a(),
+            1 => s.clone().b(),
+            _ => s.clone().c(),
+        };
         let tag = s.try_read_untracked().map(|g| match g.deref() {
             Choice::A => 0,
             Choice::B(..) => 1,
             Choice::C { .. } => 2,
         });
-        Some(match tag {
-            Some(t) => (a, b, c) == (t == 0, t == 1, t == 2),
-            None => !a && !b && !c,
-        })
+        Some(is == (tag == Some(which.clamp(0, 2))))
     }
 }
 
@@ -693,7 +696,8 @@ pub trait Node: Send + Sync {
     /// 2 Get::try_get, 3 With::try_with, 4 Track::track + try_read_untracked,
     /// 5 StoreField::track_field + reader, 1 iterate, 6 / 7 OptionStoreExt::map / invert,
     /// 8 Signal::from(subfield).try_get(), 9 iterate `.rev()`, 10 iterate from both ends,
-    /// 11 enum: the generated bool accessors + the value
+    /// 11 / 12 / 13 enum: the generated bool accessor of the unit / tuple / struct variant +
+    /// the value read untracked
     fn read(&self, how: i64) -> Sexp;
     /// untracked look at the current value: is the child addressed by `st` there?
     fn has_child(&self, st: Step) -> bool;
@@ -825,8 +829,8 @@ impl<T: Val, S: FldBase<T>> Node for N<S, T> {
                     return sig(&self.f).try_get().map(|v| v.enc()).unwrap_or_else(none);
                 }
             }
-            11 => {
-                if let Some(ok) = T::variant_read(&self.f) {
+            11 | 12 | 13 => {
+                if let Some(ok) = T::variant_read(&self.f, how - 11) {
                     let v = self.f.try_read_untracked().map(|g| g.deref().enc()).unwrap_or_else(none);
                     return if ok { v } else { Lst(vec![Num(-2), v]) };
                 }
